@@ -94,6 +94,27 @@ def assignments(dnames, enames, rng=None):
                 else:
                     env[n] = v
         yield mapping, env
+        # the same assignment with every name ALSO (or ONLY) present in the
+        # other namespace: '$name' must never see the environment and
+        # '$(NAME)' never the mapping
+        for also in (True, False):
+            m2 = dict(mapping) if also else {}
+            e2 = dict(env) if also else {}
+            for idx, (kind, n) in enumerate(allnames):
+                v = "OTHER%d" % idx
+                if kind == "d":
+                    e2[n] = v
+                    e2[n.upper()] = v
+                else:
+                    m2[n.lower()] = v
+            if not also:
+                # undefined in its own namespace, defined in the other one
+                for kind, n in allnames:
+                    if kind == "d":
+                        m2.pop(n, None)
+                    else:
+                        e2.pop(n, None)
+            yield m2, e2
 
 
 class EnvPatch:
@@ -126,8 +147,9 @@ def check_string(ctx, substitute, ZConfig, s, rng=None, family="enum"):
     for mapping, env in assignments(dnames, enames, rng):
         res.evaluations += 1
         exp = refsubst.subst(s, mapping, env)
-        if enames:
-            with EnvPatch(enames, env):
+        touched = sorted(set(enames) | set(env))
+        if touched:
+            with EnvPatch(touched, env):
                 obs = observe(substitute, ZConfig, s, mapping)
         else:
             obs = observe(substitute, ZConfig, s, mapping)
@@ -268,6 +290,7 @@ def replay(ctx, case):
     s = case["s"]
     mapping, env = case["mapping"], case["env"]
     _, enames = refsubst.names(s)
+    enames = sorted(set(enames) | set(env))
     exp = refsubst.subst(s, mapping, env)
     with EnvPatch(enames, env):
         obs = observe(substitute, ZConfig, s, mapping)
